@@ -3,7 +3,7 @@
 //! invocations; plus in-process access to the checkfile parser (C13) and the
 //! special-file half of C11.
 
-#[cfg(not(feature = "full"))]
+#[cfg(not(feature = "par"))]
 use crate::lean::LeanHasher;
 use crate::exec::*;
 use crate::model::{hex, unhex, MMode};
@@ -149,22 +149,29 @@ fn run_b3sum_split(sh: &Shared, args: &[std::ffi::OsString], stdin: &[u8], split
         .stderr(std::process::Stdio::piped())
         .spawn()
         .map_err(|e| OpErr::Harness(format!("spawn b3sum: {e}")))?;
-    {
+    // stdin is fed from its own thread: a large checkfile on stdin and a large report on stdout at the same time
+    // would otherwise block each other (both pipes full)
+    let feeder = {
         let mut si = child.stdin.take().unwrap();
-        match split {
-            Some(k) if k > 0 && k < stdin.len() => {
-                let _ = si.write_all(&stdin[..k]);
+        let bytes = stdin.to_vec();
+        let piecewise = matches!(split, Some(k) if k > 0 && k < stdin.len());
+        if piecewise {
+            sh.fault("stdin_delivered_in_pieces");
+        }
+        std::thread::spawn(move || match split {
+            Some(k) if k > 0 && k < bytes.len() => {
+                let _ = si.write_all(&bytes[..k]);
                 let _ = si.flush();
                 std::thread::sleep(std::time::Duration::from_millis(60));
-                let _ = si.write_all(&stdin[k..]);
-                sh.fault("stdin_delivered_in_pieces");
+                let _ = si.write_all(&bytes[k..]);
             }
             _ => {
-                let _ = si.write_all(stdin); // the child may exit without reading its stdin
+                let _ = si.write_all(&bytes); // the child may exit without reading its stdin
             }
-        }
-    }
+        })
+    };
     let out = child.wait_with_output().map_err(|e| OpErr::Harness(format!("wait b3sum: {e}")))?;
+    let _ = feeder.join();
     Ok(RunOut { code: out.status.code(), stdout: out.stdout, stderr: out.stderr })
 }
 
